@@ -21,6 +21,8 @@ CHECKS = {
    text="Every call to an ordered method is judged against the slot arithmetic of Spec-M (accept/reject kind, response, global index); histories follow the expected sequence and deviate at random points.", ref="5 C04", note=A_NOTE),
  "C05": dict(engine="shapegen", technique="runtime monitoring of generated programs: caller, input matcher and answer function log probes and addresses of every argument; generator-side expectation",
    text="For every generated trait shape (receiver x arity 0-5 x 18 parameter kinds x 9 return kinds x sync/async forms x api forms) the values and addresses seen by the matcher and the answer function must equal the caller's, position by position; the result must be the answer's; &mut mutations must be visible; async methods evaluate once per await and not at all when dropped unpolled.", ref="5 C05", note=B_NOTE),
+ "C06": dict(engine="shapegen", technique="translation validation by execution: every generated matching! invocation is evaluated on its whole finite argument domain in both evaluation modes and compared with the generator's evaluation of the pattern and a rustc-compiled match",
+   text="For each generated pattern (literals, ranges, bindings, @, or-patterns, tuple/struct/enum/Option/slice patterns, string literals against &str/String/newtype, eq!/ne!, two alternatives, guards incl. ||) the accept/reject decision on every tuple of the domain, with diagnostics off (unordered) and on (ordered), must equal the independent evaluation. A hand-shaped Rust match compiled next to it cross-checks the generator's evaluator; disagreement between the two oracles is inconclusive.", ref="5 C06", note=B_NOTE + " Calibration: at most two top-level alternatives (three or more do not parse in the pinned macro)."),
  "C07": dict(engine="dynmock", technique="runtime monitoring: decision-table sweep (strict/partial x unmentioned/unmatched/matched x default body/real fn) judged by Spec-M with callback event logs",
    text="Outcome, callback log (which real function / default body ran, with which arguments) and counters compared with Spec-M for every fall-through situation, incl. hand-written partial-by-default MockFns (hook H4).", ref="5 C07", note=A_NOTE),
  "C08": dict(engine="dynmock", technique="runtime monitoring: fault injection (user panics in matcher/answer/real/default callbacks) and mock-induced panics on clones/threads; verification text must contain every recorded error",
@@ -41,11 +43,18 @@ CHECKS = {
    text="Generated traits with a provided method on six receiver kinds whose body calls 0-3 required methods; reached by fall-through (strict/partial) or applies_default_impl() (ordered and counted), after an earlier borrowed delegation and mixed with direct calls; result, argument logs, shared counts/slots and the moment of verification for by-value receivers are checked.", ref="5 C15", note=B_NOTE + " `self: Box<Self>` provided methods are rejected by the pinned macro and are out of scope."),
  "C16": dict(engine="shapegen", technique="runtime monitoring of generated programs (real functions log arguments, addresses and nested results) plus Spec-M histories (dynmock)",
    text="Generated traits with 1-4 methods and unmock_with lists mixing path / path(params..) / _ and entries for skipped associated functions; every method is unmocked via an empty partial mock and via applies_unmocked(); exactly one invocation of the right function with the caller's arguments, result unchanged, calls back into the mock counted there, `_` panics naming the method.", ref="5 C16", note=B_NOTE),
+ "C17": dict(engine="shapegen", technique="runtime monitoring of generated programs: Debug rendering and leaf addresses of every returned value compared with the generator's rendering of the configured value, over a calibrated set of accepted return types",
+   text="273 accepted return types over Option/Result/Vec/Poll/1-4-tuples x owned and borrowed leaves (depth <= 3); every variant, 0-4 elements, distinct leaves; four configuration paths. Returned structure must equal the configured one, borrowed leaves keep their addresses over repeated calls, a further request is refused exactly when an owned leaf was configured through a single-use path.", ref="5 C17", note=B_NOTE + " Accepted types calibrated once: gen/accepted/returns.json."),
  "C18": dict(engine="dynmock", technique="runtime monitoring: metamorphic testing (run-against-run comparison of the real code, no model)",
    text="Four relations between runs of the real code: clause permutation, routing over clones/threads, a second independent mock with interleaved foreign calls, swapped generic instantiations. Any difference in a call outcome or the verification line multiset is a violation.", ref="5 C18", note="No specification involved; trusted: the transformation code in meta.rs. std build only (the documented no_std difference makes routing over clones observable there)."),
+ "C19": dict(engine="shapegen", technique="runtime monitoring of generated programs and Spec-M histories: panic texts parsed and compared with rustc's own Debug renderings computed at the call site, captured file:line and the generator's per-argument evaluation",
+   text="(a) every generated method shape is called on mocks that must fail in three ways; the text must start with Trait::method(Debug of each argument, ? for non-Debug). (b) every rejected tuple of every generated matching! pattern: pattern named by source text and file:line; for guard-free single-alternative patterns the listed input positions must be exactly the rejecting ones, each with its value. (c) dynmock: every mock-induced panic kind names its method and pattern.", ref="5 C19", note=B_NOTE + " Known finding F4 (Impossible slot) is listed in known_findings.json."),
+ "C20": dict(engine="mirrors", technique="runtime monitoring by differential testing: a plain struct and a Unimock replay the same random script through upstream provided methods; results, buffers and the logged required-method call sequences are compared",
+   text="11 trait families (std io Write/Read/BufRead/Seek, Hasher, Display/Debug, embedded-hal delay/digital/i2c/spi/pwm, tokio and futures poll traits): 82 of the mirrored methods are driven; scripts contain short reads/writes, Interrupted, errors, EOF and Pending; strict and partial mocks alternate. The method list is parsed from src/mock/*.rs so that undriven methods are reported.", ref="5 C20", note="Trusted: the plain reference structs in engines/harness/src/bin/mirrors.rs implement only the required methods."),
 }
 
 LEVEL = {p: "exploration" for p in CHECKS}
+LEVEL["C06"] = "translation_validation"
 LEVEL["C11"] = "fault_enumeration"
 
 def main():
@@ -82,6 +91,8 @@ def main():
              "kind_free_text": "Engine C: token-passing controlled scheduler driven by hook H3, linearizability checker, real-thread stress, sanitizer stages"},
             {"name": "shapegen", "path": "gen/shapegen.py", "serves_properties": ["C05", "C15", "C16", "C06", "C17", "C19", "C20"],
              "kind_free_text": "Engine B: python generators write Rust programs (one module per shape/pattern) with logging drivers; expectations computed by the generator; built against /repo and run"},
+            {"name": "mirrors", "path": "engines/harness/src/bin/mirrors.rs", "serves_properties": ["C20"],
+             "kind_free_text": "differential script replay: plain struct vs Unimock through upstream provided methods"},
             {"name": "crashbox", "path": "engines/harness/src/bin/crashbox.rs", "serves_properties": ["C11"],
              "kind_free_text": "Engine D: crash-point x topology scenarios, each in an expendable child process"},
             {"name": "dynmock", "path": "engines/harness/src/bin/dynmock.rs", "serves_properties": ["C01","C02","C03","C04","C07","C08","C09","C14","C18"],
